@@ -91,11 +91,13 @@ func C09Worlds(c *Ctx, sz sizes) ([]*World, error) {
 	}
 	// several converters that fail at the same stage, in different packages and output files:
 	// which failure is reported must not depend on map order or on the order of packages
-	for si, st := range stages {
+	// "multiname" (a goverter:variables value spec with two names) exists for variables blocks
+	// only; it is not part of `stages`, whose length C17's draws depend on
+	for si, st := range append(append([]string{}, stages...), "multiname") {
 		s := &LSpec{UserPkgs: map[string]string{}, PkgNames: map[string]string{"svc/conv": "conv", "api/conv": "conv", "a": "a"}}
 		for ci, d := range []string{"svc/conv", "a", "api/conv"} {
 			kind := "interface"
-			if ci == 1 && st != "marker" && st != "render" {
+			if (ci == 1 && st != "marker" && st != "render") || st == "multiname" {
 				kind = "variables"
 			}
 			s.Convs = append(s.Convs, LConv{Dir: d, File: "conv.go", Kind: kind, Name: fmt.Sprintf("D%c%d", 'a'+ci, si), Version: 1, Defect: st})
